@@ -191,3 +191,29 @@ CONFIG["C03"] = {
     "assumptions": COMMON_ASSUMPTIONS + ["libsimplicity as vendored in simplicity-sys/depend is the reference", "pruned programs are compared with C in C08"],
     "counter_floors": {"quick": {"both-accept": 5000, "both-reject": 20000, "fail-node-exception": 500}, "thorough": {"both-accept": 300000}},
 }
+
+CONFIG["C06"] = {
+    "budget_s": {"quick": 120, "thorough": 1800},
+    "floor": {"quick": 8000, "thorough": 400000},
+    "rule": ("(1) every one of the 471 Elements jets wrapped as comp (comp witness[v] jet) unit, 6 (thorough 60) rounds each, v a plausible input of the jet's source type (small and out-of-range indices for 2^32, "
+             "valid curve x-coordinates for 2^256 components, valid BIP-340 triples for bip_0340_verify, all-left/all-right/random otherwise) in a freshly generated transaction environment; "
+             "(2) type-directed random 1->1 Elements programs without fail nodes (all jets as leaves, witnesses, assertions, disconnect, sharing) in generated environments. Both are run on the Rust Bit Machine "
+             "(BitMachine::exec with the ElementsEnv) and, after serialisation, on the C evaluator (decodeMallocDag, mallocTypeInference, fillWitnessData, evalTCOExpression(CHECK_NONE, minCost 0, no budget, the same "
+             "CTxEnv) through a binding declared by the harness with the nine-parameter C prototype). Oracle: Ok <-> NoError, ReachedPrunedBranch <-> ExecAssert, JetFailed <-> ExecJet; C-side memory/budget limits are inconclusive. "
+             "Non-trivial: every compared pair (programs: >= 5 nodes); distinct: distinct (program/jet+input, environment) renderings."),
+    "exhaustive_claim": "all 471 Elements jets are executed on both evaluators in every run (inputs and environments are sampled)",
+    "assumptions": COMMON_ASSUMPTIONS + ["agreement is on verdict and failure kind, not on intermediate machine state"],
+    "counter_floors": {"quick": {"agree.Ok": 5000, "agree.Jet": 1000, "agree.Assert": 100}, "thorough": {"agree.Ok": 200000}},
+}
+
+CONFIG["C08"] = {
+    "budget_s": {"quick": 150, "thorough": 1800},
+    "floor": {"quick": 6000, "thorough": 300000},
+    "rule": ("a case is a type-directed 1->1 program biased to sharing (25% pointer reuse, so the same case node is reached under several comp contexts with different choices), with witnesses of sum/product types, "
+             "disconnect, assertions, occasionally fail, without jets or with Elements jets, and a generated Elements environment. If the run succeeds: prune must succeed, keep the CMR, run successfully within bounds "
+             "(hooks), keep every witness well-typed, be idempotent (same IHR and bytes when pruned again), serialise to bytes that RedeemNode::decode reads back identically and that the C implementation accepts with "
+             "CHECK_ALL (every node executed, both branches of every case taken) in the same environment, with C's CMR/AMR/IHR/cost equal to Rust's; finalize_pruned from the construct node must give the same IHR. "
+             "If the run fails: prune fails with the same kind of error. Non-trivial: the program contains at least one case node; distinct: distinct (program, environment) renderings."),
+    "assumptions": COMMON_ASSUMPTIONS + ["environments in which the run fails are only checked for clean failure"],
+    "counter_floors": {"quick": {"run-ok": 20000, "pruned.has-assertions": 3000, "run-failed.prune-failed-same-kind": 1000}, "thorough": {"run-ok": 800000}},
+}
